@@ -68,7 +68,7 @@ class StubProto:
         self._reading_paused = False
 
 
-def run_reader(stream: bytes, cfg: dict, cuts: tuple, check_mem: bool = True):
+def run_reader(stream: bytes, cfg: dict, cuts: tuple, check_mem: bool = True, eof_first: bool = False):
     """Feed `stream` cut at `cuts` into a fresh real reader.  Returns (messages, error)."""
     from aiohttp import WSMsgType
     from aiohttp._websocket.models import WebSocketError
@@ -106,6 +106,9 @@ def run_reader(stream: bytes, cfg: dict, cuts: tuple, check_mem: bool = True):
             if held > bound:
                 raise Violation("memory-bound", f"{held} bytes retained for an incomplete message > max_msg_size {mx} + 14 + 125 + segment {len(seg)}")
             worst = max(worst, held)
+    if eof_first:
+        # the peer goes away right after its last byte, before the application comes to read: what was recorded stays
+        r.feed_eof()
     # what a consumer gets: through the queue's read() (nothing is awaited here: read() only waits on an empty,
     # still-open queue, and then it is not called)
     delivered = []
@@ -213,6 +216,11 @@ def check_stream(rec: Rec, stream: bytes, cfg: dict, cutsets, meta: dict, frame_
     if problems:
         cls = meta.get("cls", "?")
         raise Violation(f"ref-mismatch/{cls}", f"cfg={cfg} class={cls}: {problems[0]}")
+    # the connection is lost right behind the last byte, and the application reads only then: same messages, same error
+    m3, e3 = run_reader(stream, cfg, (), eof_first=True)
+    if (m3, e3) != (msgs, err):
+        raise Violation("outcome-lost-at-eof", f"cfg={cfg} class={meta.get('cls')}: read before the connection is lost -> {short(msgs)} err={err}; "
+                        f"read after it is lost -> {short(m3)} err={e3}")
     n = 0
     for cuts in cutsets:
         n += 1
